@@ -18,14 +18,18 @@ INCLUDE_DIRS = ['lib/texellib', 'lib/texellib/book', 'lib/texellib/debug', 'lib/
 CBMC_CHECKS = ['--signed-overflow-check', '--undefined-shift-check', '--pointer-overflow-check',
                '--unwinding-assertions', '--drop-unused-functions', '--no-malloc-may-fail']
 
+DEFAULT_EXTERN = [r'nondet_\w+', r'verif_\w+', r'__CPROVER_\w+', r'malloc|free|calloc|realloc|memcpy|memmove|memset|memcmp|strlen|strcmp|abort|exit',
+                  r'__ir_\w+', r'__cxa_(begin_catch|end_catch|free_exception|throw|rethrow|atexit|guard_\w+)', r'_Unwind_Resume', r'__gxx_personality_v0', r'__clang_call_terminate']
+
 class Unit:
     """One harness translation unit, lowered once; several entries (obligations) may share it."""
     def __init__(self, name, src, entries, defines=None, aliases=None, stubs=None, noinline=None, extra_roots=None,
-                 throw_ok=False, clang_flags=None, object_bits=None):
+                 throw_ok=False, clang_flags=None, object_bits=None, allow_extern=None):
         self.name = name; self.src = src; self.entries = list(entries)
         self.defines = dict(defines or {}); self.aliases = dict(aliases or {}); self.stubs = list(stubs or [])
         self.noinline = list(noinline or []); self.extra_roots = list(extra_roots or [])
         self.throw_ok = throw_ok; self.clang_flags = list(clang_flags or []); self.object_bits = object_bits
+        self.allow_extern = list(allow_extern or []); self.externals = []
         self.dir = None; self.error = None; self.lower_s = 0.0; self.functions = []
 
 class Ob:
@@ -148,10 +152,20 @@ def lower_unit(u, scratch):
     with open(os.path.join(d, 'data.txt'), 'w') as f:
         f.write('\n'.join(lines) + '\n'); f.write(open(os.path.join(d, 'dump.txt')).read())
     # 5. ir2c pass 2
-    rc, out, _, _ = run([IR2C, 'h.ll', 'gen.c'] + args + ['--data', 'data.txt'], cwd=d, timeout=600)
+    rc, out, _, _ = run([IR2C, 'h.ll', 'gen.c'] + args + ['--data', 'data.txt', '--externals', 'externals.txt'], cwd=d, timeout=600)
     if rc != 0: return fail('ir2c(pass2)', out)
+    # undefined externals must be allowed explicitly (CBMC: nondet result, no side effects)
+    bad = []
+    for ln in open(os.path.join(d, 'externals.txt')):
+        kind, name = ln.split()[0], ln.split()[1]
+        cname = ln.split()[2] if len(ln.split()) > 2 else name
+        if kind == 'A': continue        # address taken only (vtable slot etc.), never called directly
+        if any(re.fullmatch(pat, name) or re.fullmatch(pat, cname) for pat in DEFAULT_EXTERN + u.allow_extern):
+            u.externals.append(name); continue
+        bad.append(ln.strip())
+    if bad: return fail('externals', 'undefined functions/globals reachable from the harness that are not allowed explicitly:\n' + '\n'.join(bad))
     # 6. concrete build of the translation (for translation validation)
-    rc, out, _, _ = run(['gcc', '-O1', '-w', '-fwrapv', '-I' + TOOLS, 'gen.c', 'native_rt.o', 'entries.o', '-lm', '-o', 'exe_c'], cwd=d, timeout=900)
+    rc, out, _, _ = run(['gcc', '-O1', '-w', '-fwrapv', '-no-pie', '-I' + TOOLS, 'gen.c', 'native_rt.o', 'entries.o', '-lm', '-Wl,--unresolved-symbols=ignore-all', '-o', 'exe_c'], cwd=d, timeout=900)
     if rc != 0: return fail('gcc gen.c', out)
     # functions encoded (for evidence)
     fns = re.findall(r'^[A-Za-z_][^\n;{]*?\b(_Z\w+|h_\w+)\(', open(os.path.join(d, 'gen.c')).read(), re.M)
@@ -181,7 +195,7 @@ def cbmc_cmd(u, ob, witness):
            '-DVERIF_PARAM=%d' % ob.param, '--unwind', str(ob.unwind), '--trace', '--verbosity', '8']
     if ob.unwindset: cmd += ['--unwindset', ob.unwindset]
     if u.throw_ok: cmd += ['-DVERIF_THROW_OK']
-    if u.object_bits: cmd += ['--object-bits', str(u.object_bits)]
+    cmd += ['--object-bits', str(u.object_bits or 12)]
     if witness:
         cmd += ['-DWITNESS', '--no-standard-checks', '--drop-unused-functions', '--no-malloc-may-fail', '--stop-on-fail', '--property', 'verif_end.assertion.1']
     else:
